@@ -36,16 +36,16 @@ type Found struct {
 }
 
 type Stats struct {
-	Cases       int            `json:"cases"`       // scenarios generated
-	Evaluations int            `json:"evaluations"` // simulated executions (statement runs on a simulated store)
-	Steps       int            `json:"steps"`       // storage events
-	Polls       int            `json:"polls"`
-	Counters    map[string]int `json:"counters"`
-	Distinct    map[string]int `json:"distinct"` // signature -> count, non-trivial cases only
-	Samples     []any          `json:"samples"`
+	Cases       int               `json:"cases"`       // scenarios generated
+	Evaluations int               `json:"evaluations"` // simulated executions (statement runs on a simulated store)
+	Steps       int               `json:"steps"`       // storage events
+	Polls       int               `json:"polls"`
+	Counters    map[string]int    `json:"counters"`
+	Distinct    map[string]int    `json:"distinct"` // signature -> count, non-trivial cases only
+	Samples     []any             `json:"samples"`
 	Digests     map[string]string `json:"digests"` // run index -> digest, for the sampled audit indices
-	Found       []Found        `json:"found"`
-	NFound      int            `json:"nfound"`
+	Found       []Found           `json:"found"`
+	NFound      int               `json:"nfound"`
 	curDigest   uint64
 }
 
@@ -124,8 +124,12 @@ type Prop struct {
 	Run         func(sc *Scenario, st *Stats) []Violation
 	// Shrink returns candidate simplifications of sc (each one step simpler).
 	Shrink func(sc *Scenario) []*Scenario
+	// ShrinkLazy, when set, is used instead of Shrink: it calls try(candidate)
+	// for one candidate at a time (building it only then) and stops as soon as
+	// try returns true (candidate accepted).
+	ShrinkLazy func(sc *Scenario, try func(*Scenario) bool)
 	// Finish lets a property add derived coverage keys / probe checks.
-	Finish func(st *Stats, cov map[string]any, tier string) (infraErr string)
+	Finish     func(st *Stats, cov map[string]any, tier string) (infraErr string)
 	Exhaustive func(tier string) bool
 	Race       bool // needs the -race binary
 }
@@ -495,18 +499,18 @@ func report(p *Prop, tier string, seed int64, st *Stats, compared, identical int
 
 	nontrivial := len(st.Distinct)
 	cov := map[string]any{
-		"evaluations":         st.Evaluations,
-		"distinct_nontrivial": nontrivial,
-		"rule":                p.Rule,
-		"samples":             st.Samples,
-		"scenarios":           st.Cases,
-		"logical_steps":       map[string]int{"storage_events": st.Steps, "polls": st.Polls},
-		"simulated_time_note": "kvql has no clock; simulated time is reported as logical steps (storage events and polls)",
-		"counters":            st.Counters,
-		"replays_compared":    compared,
-		"replays_identical":   identical,
-		"workers":             nw,
-		"components":          p.Real,
+		"evaluations":            st.Evaluations,
+		"distinct_nontrivial":    nontrivial,
+		"rule":                   p.Rule,
+		"samples":                st.Samples,
+		"scenarios":              st.Cases,
+		"logical_steps":          map[string]int{"storage_events": st.Steps, "polls": st.Polls},
+		"simulated_time_note":    "kvql has no clock; simulated time is reported as logical steps (storage events and polls)",
+		"counters":               st.Counters,
+		"replays_compared":       compared,
+		"replays_identical":      identical,
+		"workers":                nw,
+		"components":             p.Real,
 		"known_findings_matched": knownHit,
 	}
 	if wall.Seconds() > 0 {
